@@ -64,7 +64,7 @@ class Obligation:
 
 class Engine:
     def __init__(self, choices=(), *, model: dict | None = None, decisions=None,
-                 timeout_ms: int = 10000, path_no: int = 0, fuel: int = 200000):
+                 timeout_ms: int = 10000, path_no: int = 0, fuel: int = 200000, shared: dict | None = None):
         self.mode = 'conc' if model is not None else 'sym'
         self.model = model
         self.choices = list(choices if decisions is None else decisions)
@@ -77,7 +77,9 @@ class Engine:
         self.trace: list[Any] = []                 # ghost events (harness-defined tuples)
         self.draws: list[tuple[str, Any]] = []     # (name, z3 const) in draw order
         self.names: dict[str, int] = {}
+        self.shared = shared          # persists across the paths of one harness run (loop-head de-duplication)
         self.dead = False
+        self.no_crosscheck = ''       # set when the path used an uninterpreted abstraction (its model is not an execution)
         self.backedge = False
         self.path_no = path_no
         self.fuel = fuel
